@@ -15,158 +15,13 @@ THEOREMS = [
     "Cog.C02.C02_errors_counterexample",
 ]
 FILES = HARNESS_BASE + ["lab_*.go", "src_*.go", "c02_*.go"]
-PROPOSED = os.path.join(WORK, "proposed_findings_C02.json")
 
 
-COMBO = r"[^\t]*"
-def F(id, what, match, pinned):
-    return {"id": "C02/" + id, "property": "C02", "what": what, "match": match, "pinned_input": pinned}
-
-# One entry per mechanism. `match` is applied to "<request>\t<oracle verdict>" of the (shrunk) failing
-# case: compiler-diagnostic class + the construct / flags the mechanism needs.
-FINDINGS = [
-    # ---- Go, template-rendered text (exploration) ----
-    F("go/unused-import-strconv-strict-map-of-structs",
-      "KB01: strict unmarshaller on a map whose values are not scalars imports strconv, which only the array-of-non-scalars branch uses: `\"strconv\" imported and not used` unless the package also has such an array",
-      r"lang=go class=unused-import:strconv:in-types trig=[^ ]*dict\.nonScalar\.noArray",
-      "c02-known lab/KB01: (defs \"Root\" (\"Root\" (struct (field \"a\" (dict (ref \"S\")) false false -))) (\"S\" (struct (field \"p\" (string - - false) true false -)))) flags 111100"),
-    F("go/unused-import-fmt-union-marshaller-without-strict",
-      "a union's custom MarshalJSON/UnmarshalJSON templates import fmt (and errors, for a discriminated union of references), which only the strict unmarshaller uses: with generate_json_marshaller on and the strict unmarshaller off (or disabled by skip_runtime) every schema with a union fails with `\"fmt\" imported and not used`",
-      r"lang=go class=unused-import:(fmt|errors):in-types trig=[^ ]*union[^\t]* go=1(0[01]{4}|[01]{4}1) ",
-      "c02-known go/unused-import-fmt…: (defs \"Root\" (\"Root\" (struct (field \"a\" (oneOfScalars (string - - false) (bool)) true false -)))) flags 101100 and 111101"),
-    F("go/unused-import-errors-skip-runtime",
-      "skip_runtime leaves `errors` imported by the validation/equality templates without the runtime code that uses it: `\"errors\" imported and not used`",
-      r"lang=go class=unused-import:errors:in-types trig=[^\t]* go=[01]{5}1 ",
-      "c02-lab seed 4 builders=1 (flags ….1 with builders)"),
-    F("go/unused-import-errors-inline-struct-default",
-      "KB06 (CUE): default on an inline struct: Go `\"errors\" imported and not used`, Python receives a Go-syntax literal",
-      r"lang=(go|python) class=(unused-import:errors:in-types|SyntaxError|TypeError) trig=[^ ]*default\.inline\.struct",
-      "c02-known lab/KB06"),
-    F("go/list-default-of-ints",
-      "KB02: formatScalar prints every list default as `[]string{…}`: a list default of numbers or bools does not compile",
-      r"lang=go class=cannot-use:\[\]string-literal:in-types trig=[^ ]*default\.list\.nonString",
-      "c02-known lab/KB02: (field \"a\" (array (int 64 true - -)) false false (a (n \"1\") (n \"2\")))"),
-    F("go/enum-member-sign-collision",
-      "KB03: integer enum members 1 and -1 are both named …1 (`redeclared`)",
-      r"lang=go class=redeclared:in-types trig=[^ ]*enumI\.signCollision",
-      "c02-known lab/KB03: (enumI 1 -1)"),
-    F("go/reference-to-constant-definition",
-      "KB04 (CUE): `#E: \"b\"` is read as a constant; a field or array referring to it prints `E` where a type is needed (`E is not a type`, mismatched types)",
-      r"lang=go class=(not-a-type|mismatched-types|cannot-use[^ ]*):in-types trig=[^ ]*ref\.to\.single\.enumS",
-      "c02-known lab/KB04"),
-    F("go/nullable-inline-enum-union-fields-collide",
-      "KB05 (CUE): `null | \"x\" | \"y\"` becomes a union struct with three fields named String",
-      r"lang=go class=redeclared:in-types trig=[^ ]*nullable\.inline\.enumS[^\t]* format=cue",
-      "c02-known lab/KB05"),
-    F("python/go-syntax-literal-for-struct-default",
-      "KB07 (CUE): `null | #S | *{…}`: the default is printed into Python in Go %#v syntax (SyntaxError at import)",
-      r"lang=python class=SyntaxError trig=[^ ]*default\.ref\.struct\.nullable",
-      "c02-known lab/KB07"),
-    F("go/unknown-type-hint-struct-default-enum-member",
-      "KB08: a struct default overriding an enum-typed member passes the RESOLVED enum type to the pointer helper, doFormatType has no case for an enum and prints `unknown` (placeholder in a successful run; `undefined: unknown`)",
-      r"lang=go class=(undefined:unknown:in-types|placeholder:unknown) trig=[^ ]*default\.struct\.enumField",
-      "c02-known lab/KB08; Lean witness W.kb08"),
-    F("go/pointer-helper-instantiated-with-resolved-type",
-      "a struct default overriding a nullable member whose type is a reference to a named scalar: maybeValueAsPointer is given the RESOLVED type, so the literal is `(func(input string) *string {…})(\"v\")` while the field is `*Node` (found by the thorough tier, anticipated from rawtypes.go:defaultsForStruct)",
-      r"lang=go class=cannot-use:\*(string|bool|u?int\d*|float\d*)-as-\*T:in-types trig=[^ ]*default\.ref\.struct",
-      "(defs \"Panel\" (\"Panel\" (struct (field \"fooBar\" (ref \"Leaf\") true false (o (\"tags\" (s \"v3a\")))))) (\"Leaf\" (struct (field \"tags\" (ref \"Node\") false false -))) (\"Node\" (string - - false))) cue go=010100"),
-    F("go/exponent-literal-for-integer-default",
-      "KB13 (OpenAPI): an integer default beyond 2^53 arrives as float64 and is printed by %#v in exponent form, not representable in int64",
-      r"lang=go class=cannot-use:untyped-float-constant:in-types trig=[^ ]*default\.int\.huge",
-      "c02-known lab/KB13; Lean witness W.kb13"),
-    F("go/builder-optional-constant-int",
-      "KB15: the builder constructor assigns &val (an *int) to an optional constant int64 member",
-      r"lang=go class=cannot-use:\*int-as-\*int64:in-builder",
-      "c02-known lab/KB15"),
-    F("go/builder-array-of-map-of-struct",
-      "KB16: an option taking []map[string]cog.Builder[T] calls Build() on the map",
-      r"lang=go class=no-field-or-method:in-builder trig=[^ ]*builders\+array\.of\.dict\.of\.struct",
-      "c02-known lab/KB16"),
-    F("go/field-names-collide-after-camel-casing",
-      "KB17: foo_bar and fooBar map to the same Go field (and the same Python constructor argument)",
-      r"lang=(go|python) class=(redeclared:in-types|duplicate-field:in-types|SyntaxError) trig=[^ ]*name\.collide",
-      "c02-known lab/KB17; Lean witness W.kb17"),
-    # ---- Java (exploration) ----
-    F("java/integer-enum-member-named-by-its-number",
-      "an integer enum read from JSON Schema / OpenAPI (and a constant integer rendered as a one-member enum) gets members named by their value: `21(21)` is not a Java identifier — no Java pass renames numeric member names",
-      r"lang=java class=java:enum-constant-expected:digit-name:in-type",
-      "c02-known java/integer-enum…: (field \"a\" (enumI 1 2) true false -) jsonschema"),
-    F("java/union-class-refers-to-serializers-without-json-marshaller",
-      "with builders on and generate_json_marshaller off a union class is still annotated with @JsonSerialize/@JsonDeserialize(using = XSerializer.class) although the serializer classes are not generated",
-      r"lang=java class=java:cannot-find-symbol:class:\*(De)?[Ss]erializer:in-type [^\t]* marshal=0",
-      "c02-known java/union-class…"),
-    F("java/builders-with-skip-runtime-import-missing-runtime",
-      "builders (and types implementing cog.Builder) are emitted with skip_runtime although they import the runtime package that is not generated; the documented restriction is not enforced as an error",
-      r"lang=java class=java:package-does-not-exist:runtime:in-(builder|type) [^\t]*builders=1 [^\t]*skiprt=1",
-      "c02-known java/builders-with-skip-runtime…"),
-    F("java/int-literal-for-boxed-long-in-builder",
-      "a constant int64 member is assigned an int literal in the builder (`int cannot be converted to Long`)",
-      r"lang=java class=java:incompatible-types:int->Long:in-builder",
-      "c02-known java/int-literal-for-boxed-long…"),
-    F("java/int-literal-default-for-short-or-byte",
-      "struct defaults pass int literals to Short / Byte constructor parameters",
-      r"lang=java class=java:incompatible-types:int->(Short|Byte):in-type",
-      "c02-known java/int-literal-default…"),
-    F("java/constraint-literal-beyond-int-range",
-      "a bound above 2^31-1 is printed without the L suffix in the builder's validation (`integer number too large`)",
-      r"lang=java class=java:integer-number-too-large:in-builder",
-      "c02-known java/constraint-literal…"),
-    F("php/converter-unhandled-scalar-type-for-nullable-union",
-      "PHP converters print the placeholder `/* unhandled scalar type */` for a nullable union of scalars (builders + converters)",
-      r"lang=php class=placeholder:/\*_unhandled_scalar_type_\*/ trig=[^ ]*union[^\t]* converters=1",
-      "(defs \"Config\" (\"Config\" (struct (field \"size\" (oneOfScalars (bool) (string - - false)) true true -)))) cue builders=1 converters=1"),
-    F("java/struct-default-names-a-class-that-is-not-generated",
-      "a struct default (positional constructor call) on a struct whose members refer to scalar aliases / rewritten types names a Java class that is never generated (`cannot find symbol: class Child`)",
-      r"lang=java class=java:cannot-find-symbol:class:\*:in-type trig=[^ ]*default\.ref\.struct",
-      "(defs \"Panel\" (\"Panel\" (struct (field \"items\" (ref \"Node\") true false (o (\"opts\" (n \"20\")))))) (\"Node\" (struct (field \"fooBar\" (ref \"Child\") true false -))) (\"Child\" (int 64 true - -))) cue"),
-    F("java/struct-default-any-member-printed-as-unknown",
-      "a struct default on a reference to a struct with an `any` member prints the member's value as the bare word `unknown` in the positional constructor call (placeholder in a successful run)",
-      r"lang=java class=(placeholder:unknown|java:cannot-find-symbol:variable:unknown:in-type)",
-      "c02-known java/struct-default-any-member…"),
-]
-
-def IR(id, what, lang, cls):
-    return F("ir/" + id, what + " [directly constructed IR, schema-like profile of harness/c02_irsan.go; class-level entry]",
-             r"lang=%s class=(%s) [^\t]*format=ir " % (lang, cls), "c02-ir seeds 1-5 (the replay file carries the IR as VIR)")
-
-FINDINGS += [
-    # ---- directly constructed IR: shapes no source grammar term produces (named scalar / collection
-    # aliases, nullable objects, by-value recursion, lower-case object names, unions under unions) ----
-    IR("go/by-value-recursive-struct", "a required non-nullable reference from a struct to itself (or a by-value cycle) is printed as `type D struct{A D}`: Go rejects it (`invalid recursive type`); the run should refuse the schema", "go", r"invalid-recursive-type:in-types"),
-    IR("go/import-cycle-between-mutually-referring-packages", "two schemas that refer to each other become two Go packages that import each other (`import cycle not allowed`)", "go", r"import-cycle[^ ]*"),
-    IR("go/unused-imports", "the unused-import mechanisms of the template-rendered methods (strconv with a map of non-scalars, fmt with a union and no strict unmarshaller, errors/time with skip_runtime) on IR shapes", "go", r"unused-import:(strconv|fmt|errors|time):in-types"),
-    IR("go/unknown-for-kind-left-by-the-pass-chain", "an enum or disjunction left at a printed type position by the Go pass chain (C06: union under a union branch, in a map index) is printed as `unknown`", "go", r"placeholder:unknown|undefined:unknown:in-types"),
-    IR("go/equals-on-slice-typed-alias", "Equals compares a field whose type is a named bytes / array alias with `!=`", "go", r"invalid-operation:comparison-with-non-comparable:in-types"),
-    IR("go/methods-dereference-bytes", "strict unmarshaller / validation dereference a nullable bytes member (`cannot indirect … []byte`)", "go", r"invalid-operation(:cannot-indirect)?:in-types"),
-    IR("go/constructor-of-nullable-struct-object", "a struct object that is itself nullable is declared `type X *struct{…}` and constructed with `&X{…}`", "go", r"invalid-composite-literal-type:in-types"),
-    IR("go/delegated-constructor-through-nullable-alias", "`NewX()` of an alias object returns the referred constructor although the alias is a pointer alias / was rewritten by DisjunctionToType", "go", r"cannot-use:\*T-as-\*T:in-types"),
-    IR("go/reference-to-constant-object", "a reference to an object that is a constant in a position where a type is printed", "go", r"not-a-type:in-(types|builder)|mismatched-types:in-types"),
-    IR("go/builder-templates-on-alias-and-collection-shapes", "builder options on named scalar aliases, arrays of references, maps of builders and nullable collections do not type-check", "go", r"(cannot-use[^ ]*|no-field-or-method|undefined|not-a-type|mismatched-types|invalid-operation[^ ]*):in-(builder|converter)"),
-    IR("java/object-and-alias-names-not-java-classes", "Java prints object names as they are: a lower-case object `foo` becomes `public enum foo` in Foo.java, references to scalar / collection aliases name classes that are never generated", "java", r"java:(public-type-file-name-mismatch|cannot-find-symbol:class:\*|cannot-find-symbol:variable:\*|already-defined):in-(type|builder)"),
-    IR("java/enum-shapes", "enum members whose names are not Java identifiers, enums used as a base of an intersection (`enum types are not extensible`, `cannot inherit from final`)", "java", r"java:(enum-constant-expected|enum-types-are-not-extensible|cannot-inherit-from-final[^ ]*|syntax|illegal-start):in-type"),
-    IR("java/unknown-for-unhandled-kind", "the Java type formatter's fallback `unknown` for kinds it has no case for", "java", r"placeholder:unknown|java:cannot-find-symbol:(class|variable):unknown:in-(type|builder|serializer)"),
-    IR("java/builder-templates-on-map-and-numeric-shapes", "Java builders on maps of builders; int literals for boxed Long/Short/Float constants (Constants.java) and members", "java", r"java:(non-static-method[^ ]*|cannot-find-symbol:method:[^ ]*|incompatible-types:[^ ]*|integer-number-too-large):in-(builder|type)"),
-    IR("java/runtime-and-serializers", "the skip_runtime / json-marshaller mechanisms of the Src streams on IR", "java", r"java:(package-does-not-exist:runtime|cannot-find-symbol:class:\*(De)?[Ss]erializer):in-(builder|type)"),
-    IR("python/empty-bodies-and-invalid-targets", "Python: a builder / class with no members gets an empty body (IndentationError), field names that are not identifiers become assignment targets (SyntaxError)", "python", r"IndentationError|SyntaxError"),
-    IR("php/placeholders-for-alias-objects", "PHP prints `unhandled type def kind` for objects that are scalar / collection aliases (API reference) and `/* unhandled scalar type */`, `/* unhandled type */` in converters", "php", r"placeholder:(unhandled_type_def_kind|/\*_unhandled_scalar_type_\*/|/\*_unhandled_type_\*/)"),
-]
-
-# Catch-all entries for the peripheral surfaces whose defects form a long tail (every new seed shrinks to
-# another independent mechanism). They come LAST: the specific entries above win when they apply. A
-# mutant that only breaks these surfaces is not distinguishable from the tail; the sharp part of the
-# oracle is Go's types_gen.go, Python, JSON Schema / OpenAPI and the placeholder scan on SOURCE schemas,
-# plus the model correspondence and the theorem instances on every stream.
-FINDINGS += [
-    F("go/builder-and-converter-templates-other",
-      "other type errors in template-rendered Go builders / converters (examples shrunk so far: `undefined: tagsDepth1` for a map of arrays of references with converters; options on maps of builders)",
-      r"lang=go class=[^ ]*:in-(builder|converter) ", "see the specific go/builder-* entries; c02-lab seed 12"),
-    F("java/other",
-      "other javac diagnostics on generated Java (examples: a builder for an anonymous struct refers to the IR field name `Kind` instead of the Java member; …). The Java jenny is exercised by no compiler in cog's own tests",
-      r"lang=java class=java:", "see the specific java/* entries; c02-langs seed 13"),
-    F("ir/other-shapes",
-      "other failures on directly constructed IR (class not yet attributed to a mechanism); tallied per class in the evidence",
-      r"[^\t]*format=ir ", "c02-ir, any seed; the replay file carries the IR"),
-]
+# Known findings of C02 live in /verif/known_findings.json only (44 entries merged by the coordinator):
+# one entry per mechanism for Go types_gen.go / Python / Java / PHP on source schemas (diagnostic class +
+# the construct or flags the mechanism needs), class-level entries for directly constructed IR, and two
+# catch-alls for the long tails (Go builders / converters; IR shapes). There is NO catch-all for Java,
+# Python or Go's types_gen.go on source schemas: an unknown diagnostic class there is a VIOLATION.
 
 STATS = collections.Counter()
 SHRUNK = [0]
@@ -233,16 +88,6 @@ def main():
     if hb is None:
         c.finish("lake build", "n/a")
     # known findings: the committed file plus the entries proposed by this check (until merged)
-    try:
-        os.makedirs(WORK, exist_ok=True)
-        blob = json.dumps({"comment": "entries proposed by checks/c02.py for /verif/known_findings.json", "findings": FINDINGS}, indent=1)
-        if not os.path.exists(PROPOSED) or open(PROPOSED).read() != blob:
-            with open(PROPOSED, "w") as fh:
-                fh.write(blob)
-    except OSError:
-        pass
-    have = {f["id"] for f in c.known}
-    c.known += [f for f in FINDINGS if f["id"] not in have]
     quick = c.tier == "quick"
     seed = c.seed
 
@@ -251,7 +96,7 @@ def main():
         print(json.dumps({k: (v if not isinstance(v, str) else v[:3000]) for k, v in rp.items()}, indent=1)[:8000])
         v = rp.get("oracle", "")
         m = re.search(r"lang=(\S+) class=(\S+) trig=\S* format=(\S+) (go=\S+ union=\S+ builders=\S+ converters=\S+ apiref=\S+ marshal=\S+ skiprt=\S+) src=(\(defs .*?\)) (?:diag|hits)=", v)
-        if m and m.group(3) != "ir":
+        if m and m.group(3) != "ir" and "+" not in m.group(3):
             lang, cls, fmt, combo, src = m.groups()
             path = os.path.join(WORK, "c02-replay-%d.sexp" % os.getpid())
             with open(path, "w") as fh:
@@ -279,14 +124,17 @@ def main():
         if SHRUNK[0] > (3 if quick else 12):
             return r        # bounded effort: the first few unknown classes are minimised, the rest reported as found
         m = re.search(r"lang=(\S+) class=(\S+) trig=\S* format=(\S+) (go=\S+ union=\S+ builders=\S+ converters=\S+ apiref=\S+ marshal=\S+ skiprt=\S+) src=(\(defs .*?\)) (?:diag|hits)=", v)
-        if not m or m.group(3) == "ir":
-            return r
+        if not m or m.group(3) == "ir" or "+" in m.group(3):
+            return r        # IR and multi-input cases are reported as found
         lang, cls, fmt, combo, src = m.groups()
         path = os.path.join(WORK, "c02-shrink-%d.sexp" % os.getpid())
         with open(path, "w") as fh:
             fh.write(src + "\n")
         try:
             rows = harness(hb, "c02-shrink", timeout=1800, file=path, format=fmt, lang=lang, cls=cls, combo=combo.replace(" ", ","), budget=(24 if quick else 80))
+        except Exception as e:
+            log("shrinking failed, case reported as found:", str(e)[:300])
+            return r
         finally:
             os.remove(path)
         for row in rows:
@@ -297,12 +145,16 @@ def main():
     streams = []
     if quick:
         streams = [("c02-known", {}),
+                   ("c02-mini", dict(seed=seed, tier="quick")),
+                   ("c02-multi", dict(n=6, seed=seed, tier="quick")),
                    ("c02-lab", dict(n=8, seed=seed, tier="quick")),
                    ("c02-langs", dict(n=6, seed=seed, tier="quick")),
-                   ("c02-ir", dict(n=20, seed=seed, tier="quick")),
-                   ("c02-ir", dict(n=12, seed=seed, tier="quick", profile="raw"))]
+                   ("c02-ir", dict(n=16, seed=seed, tier="quick")),
+                   ("c02-ir", dict(n=8, seed=seed, tier="quick", profile="raw"))]
     else:
         streams = [("c02-known", {}),
+                   ("c02-mini", dict(seed=seed, tier="thorough")),
+                   ("c02-multi", dict(n=120, seed=seed, tier="thorough")),
                    ("c02-lab", dict(n=300, seed=seed, tier="thorough")),
                    ("c02-lab", dict(n=100, seed=seed + 100, tier="thorough", builders=1)),
                    ("c02-langs", dict(n=200, seed=seed, tier="thorough")),
